@@ -285,35 +285,6 @@ fn c01_tm_remove() {
     core::mem::forget(m);
 }
 
-macro_rules! tm_insert_inrange {
-    ($name:ident, $x:expr, $y:expr) => {
-        #[kani::proof]
-        #[kani::unwind(5)]
-        fn $name() {
-            let v = any_vals();
-            let mut m = mk_tm(&v);
-            let x: u32 = $x;
-            let y: u32 = $y;
-            let z: u32 = kani::any();
-            kani::assume(z < 8);
-            let before = cells(&m);
-            m.insert(TextResourceHandle::new(x as usize), TextSelectionHandle::new(y as usize), AnnotationHandle::new(z as usize));
-            let after = cells(&m);
-            let mut i = 0;
-            while i < 4 {
-                if i / 2 == x as usize && i % 2 == y as usize {
-                    if before[i].0 == 0 { assert!(after[i] == (1, z, 99), "first relation of the cell"); }
-                    else { assert!(after[i] == (2, before[i].1, z), "appended after the existing relation"); }
-                } else {
-                    assert!(after[i] == before[i], "insert leaves every other cell untouched");
-                }
-                i += 1;
-            }
-            assert!(m.totalcount() == 4 && m.partialcount() == 4, "counts");
-            kani::cover!(z == 7, "reached");
-            core::mem::forget(m);
-        }
-    };
-}
-tm_insert_inrange!(c01_tm_insert_cell00, 0, 0);
-tm_insert_inrange!(c01_tm_insert_cell11, 1, 1);
+// NOT decided: TripleRelationMap::insert. The inner maps live in the outer vector's heap buffer, so the length test
+// guarding resize_with is never constant for the symbolic executor: out of memory at 28 GB for a symbolic shape, a
+// concrete shape with a symbolic handle, and a fully concrete witness alike.
